@@ -6,14 +6,16 @@ ROOT = os.path.dirname(os.path.dirname(os.path.abspath(__file__)))
 
 CHECKS = {
     "C14": dict(
-        technique="TLA+ model checking (TLC) of the edit state machine + trace validation of replayed TLC behaviours against the specification",
+        technique="TLA+ model checking (TLC) of the edit state machine (MCEdit) and of its implementation-grain refinement (SysImpl / MCImpl: node slots, registries, raw parent "
+                  "references) + trace validation of replayed TLC behaviours against the specification",
         text="WellFormed is an invariant of MCEdit.tla checked exhaustively by TLC on bounded instances (3-4 names, rail universe overlapping the names, 5 structural classes); "
              "the same SysTree actions judge, in TraceEdit.tla, every call of TLC-generated behaviours replayed into the real System (all accepted and sampled rejected transitions of the "
              "state graph from every abstract state, plus simulated histories over all 11 classes): after every call the projected concrete state must satisfy every conjunct of WellFormed.",
         note="trusts the projection of System._g/_g.attrs, TLC, and the bounded universes; histories longer than the bounds are covered only by simulation",
         design="DESIGN.md 7 (C14)"),
     "C15": dict(
-        technique="TLA+ action property RejectedUnchanged (TLC) + trace validation of every raising call",
+        technique="TLA+ action property RejectedUnchanged (TLC, MCEdit) and 'a rejected call leaves the concrete state untouched' in the refinement check of SysImpl (MCImpl) "
+                  "+ trace validation of every raising call",
         text="RejectedUnchanged ([][outcome' = rej => UNCHANGED sys]) holds on MCEdit.tla; for the code, TLC compares the deep projection before and after every call that raised in the replayed "
              "behaviours (every reject branch of the model is exercised from every reachable abstract state of the bounded instance), and on a random subset the digests of "
              "params(limits=True)/phases()/save()/tree()/solve().",
